@@ -41,7 +41,7 @@ func runC06(c *core.Ctx) {
 	for _, p := range m.problems {
 		c.Fail("C06.R0", "anchor/server-model", 0, p)
 	}
-	if m.Global == nil {
+	if !m.hasDispatch() {
 		return
 	}
 	total, proven := panicInventory(c, "C06.R1", c06Scope(c), c06Discharger(c, m, "C06.R1"))
@@ -93,6 +93,15 @@ func c06Discharger(c *core.Ctx, m *serverModel, rule string) Discharger {
 			case strings.HasSuffix(name, "Request).MustConstruct"):
 				assume("a backend's BlobWriter.ID() is non-empty valid UTF-8, so the upload-info request for it can be constructed (MustConstruct in locationForUploadID)")
 				return true, "MustConstruct's documented panic; callers discharged separately"
+			case m.Dispatcher != nil && fn == m.Dispatcher:
+				if !tableOK || !kindsOK {
+					return false, tableWhy + "; " + kindsWhy
+				}
+				if ok, why := switchCoversKinds(fn, m); ok {
+					return true, "reached only for a kind without an arm: " + tableWhy + "; " + kindsWhy + " (" + why + ")"
+				} else {
+					return false, why
+				}
 			case strings.HasSuffix(name, "Request).construct"):
 				if ok, why := switchCoversKinds(fn, m); ok {
 					return true, "default arm unreachable: the switch has a case for every declared Kind (" + why + ")"
@@ -194,7 +203,7 @@ func c06Discharger(c *core.Ctx, m *serverModel, rule string) Discharger {
 
 func isDispatchTable(v ssa.Value, m *serverModel) bool {
 	u, ok := v.(*ssa.UnOp)
-	return ok && u.Op == token.MUL && u.X == ssa.Value(m.Global)
+	return ok && m.Global != nil && u.Op == token.MUL && u.X == ssa.Value(m.Global)
 }
 
 func isDispatchElem(v ssa.Value, m *serverModel) bool {
@@ -211,16 +220,22 @@ func dispatchTableComplete(c *core.Ctx, m *serverModel, rule string) (bool, stri
 	if len(m.Kinds) == 0 {
 		return false, "no ocirequest.Kind constants found"
 	}
+	if !m.hasDispatch() {
+		return false, "no dispatch found"
+	}
 	for name, k := range m.Kinds {
-		if k < 0 || k >= m.TableLen {
+		if m.Global != nil && (k < 0 || k >= m.TableLen) {
 			c.Fail(rule, "dispatch/"+name, m.Global.Pos(), sprintf("request kind %s (%d) is outside the dispatch table (len %d): the server panics on such a request", name, k, m.TableLen))
 			return false, "kind " + name + " outside the table"
 		}
 		if m.Handlers[k] == nil {
-			c.Fail(rule, "dispatch/"+name, m.Global.Pos(), "request kind "+name+" has no handler in the dispatch table: the server calls a nil function for such a request")
+			c.Fail(rule, "dispatch/"+name, m.anchorPos(), "request kind "+name+" has no handler in the dispatch (table or switch): the server calls a nil function, or panics, for such a request")
 			return false, "kind " + name + " has no handler"
 		}
 		c.OK(rule, "dispatch/"+name, m.Handlers[k].Pos(), "handled by "+facts.FuncName(m.Handlers[k]))
+	}
+	if m.Dispatcher != nil {
+		return true, sprintf("the dispatch switch in %s has an arm calling a handler for each of the %d declared kinds", facts.FuncName(m.Dispatcher), len(m.Kinds))
 	}
 	return true, sprintf("table of %d entries has a non-nil handler for each of the %d declared kinds", m.TableLen, len(m.Kinds))
 }
